@@ -236,16 +236,18 @@ pub fn core_family(tier: Tier) -> Vec<(Sc, Vec<Bounds>)> {
 	let mut out = vec![];
 	match tier {
 		Tier::Quick => {
-			// all scripts of length <= 2 at k <= 1 under both base policies
-			out.extend(expand(scripts_core(&CORE, 2), [both(0), both(1)].concat()));
-			// Start + two more operations, default schedule only
+			// all scripts of length <= 2 at k <= 2 under both base policies
+			out.extend(expand(scripts_core(&CORE, 2), [both(0), both(1), both(2)].concat()));
+			// every script of length 3 on the default schedule, and "Start + two more
+			// operations" at k <= 1
+			out.extend(expand(seqs(&CORE, 3), both(0)));
 			let mut l3 = vec![];
 			for s in seqs(&CORE, 2) {
 				let mut v = vec![Op::Start];
 				v.extend(s);
 				l3.push(v);
 			}
-			out.extend(expand(l3, both(0)));
+			out.extend(expand(l3, both(1)));
 		}
 		Tier::Thorough => {
 			out.extend(expand(scripts_core(&CORE, 3), [both(0), both(1), both(2)].concat()));
